@@ -178,6 +178,10 @@ def handle : List String → String
       | .graph _ S ids => "ok late=" ++ b01 (!noLateExtras U S) ++ " route=" ++ b01 (!routeClosed S ids) ++
           " stale=" ++ b01 (!noStale S ids)
       | _ => "ok late=0 route=0 stale=0"
+  | "dump" :: toks =>
+    match decode toks with
+    | none => "bad-op"
+    | some (d, root) => (toString (repr (toUniverse d))).replace "\n" " " ++ " ROOT " ++ toString (repr root)
   | _ => "bad-op"
 
 end C08Drv
